@@ -52,7 +52,13 @@ func GenerateConcurrent(bitsize int, stop chan struct{}) (<-chan *big.Int, <-cha
 				case <-stopped:
 					return
 				default:
-					ints <- x
+				}
+				// Keep listening for the stop signal while sending: once the receiver has stopped
+				// receiving, a send on a full channel would otherwise block this goroutine forever
+				select {
+				case <-stopped:
+					return
+				case ints <- x:
 					continue
 				}
 			}
